@@ -247,6 +247,14 @@ def make_case(rnd, idx, table, special=None):
             if B < d < E - 20 and rnd.random() < 0.7:
                 body.append(d)
         body.sort()
+    leap = [daynum(datetime.date(yy, 2, 29)) for yy in range(begin.year, end.year + 1) if yy % 4 == 0 and B < daynum(datetime.date(yy, 2, 29)) < E - 10]
+    c["leap"] = leap
+    if special is None and leap and rnd.random() < 0.7:
+        # events ON 29 February of a leap year and on its neighbours
+        body = sorted(body + rnd.choice([[leap[0]], [leap[0] - 1, leap[0], leap[0] + 1], [leap[0], leap[0] + 1]]))
+    if special is None and rnd.random() < 0.3:
+        # a fertilisation dated exactly on the simulation start day (= harvest day of the initial crop) and the day after
+        body = sorted([x for x in body if x > B + 3] + rnd.choice([[B], [B, B + 1], [B + 1]]))
     names = [r[0] for r in table]
     fert = []
     for i, d in enumerate(fd + body):
@@ -268,6 +276,8 @@ def make_case(rnd, idx, table, special=None):
     if special == "pre-till":
         till = [(B - 30, 10, 1), (B - 1, 15, 1)]
         tb = []
+    if special is None and leap and rnd.random() < 0.6:
+        tb = sorted(tb + [leap[0]])
     # original and displaced dates must stay outside (sowing, harvest] of every crop (else the run is aborted)
     ok = all(any(lo <= s <= hi for (lo, hi) in wins) for s in shifted(tb)) and tb == sorted(tb)
     if not ok:
@@ -284,6 +294,8 @@ def make_case(rnd, idx, table, special=None):
         idates = sorted(set(idates + [rnd.choice([E, E - 1, E + 1, B])]))
     if special == "pre-irr":
         idates = sorted(set([B - 20, B - 1] + [d for d in idates if B <= d <= E][:3] + [B + 250]))
+    if special is None and leap and rnd.random() < 0.7:
+        idates = sorted(set(idates + rnd.choice([[leap[0], leap[0] + 1], [leap[0] - 1, leap[0]], [leap[0]]])))
     c["irr"] = [(d, rnd.choice([5, 10, 15, 20, 25, 40]), rnd.choice([0, 0, 5, 20, 50])) for d in idates]
     # boundary amounts: an entry of exactly 0 mm / 0 kg is an event like any other (the cursor must pass it)
     inp = [i for i, (d, _, _) in enumerate(c["irr"]) if B <= d <= E]
@@ -872,13 +884,17 @@ def oracle(ctx, search):
                 if where == "before" and prev_h is not None and prev_h < d and d + 1 <= cs["E"]:
                     want_t.append((d + 1, d + 1, "before sowing of entry %d, dated %s" % (k, numday(d))))
                 elif where == "inside" and hz is not None and hz + 3 <= cs["E"]:
-                    want_t.append((hz + 2, hz + 3, "inside the stand of entry %d (dated %s, harvest %s)" % (k, numday(d), numday(hz))))
+                    # ... or later still, when the next crop is already in the ground by then: it then waits for that harvest
+                    nxt = [hz2 for sz2, hz2 in zip(sowlog[k:], harlog[k:]) if sz2 <= hz + 3]
+                    want_t.append((hz + 2, max([hz + 3] + [h2 + 3 for h2 in nxt]), "inside the stand of entry %d (dated %s, harvest %s)" % (k, numday(d), numday(hz))))
                 elif where == "inside" or prev_h is None or prev_h >= d:
                     want_t = None
                     break
             if want_t is not None and cs.get("till_plan"):
                 checked += 1
-                ok = len(tlog) == len(want_t) and all(lo <= z <= hi for z, (lo, hi, _) in zip(tlog, want_t))
+                stands = list(zip(sowlog, harlog + [cs["E"] + 1] * (len(sowlog) - len(harlog))))
+                ok = (len(tlog) == len(want_t) and all(lo <= z <= hi for z, (lo, hi, _) in zip(tlog, want_t)) and
+                      not any(s2 + 1 < z <= h2 + 1 for z in tlog for (s2, h2) in stands))
                 if not ok:
                     fails.append(Fail(key="tillage-date:%s:%s" % (c16.sws_of(cs), cs["name"]),
                                       what="tillage carried out on %s; the tillage file with automatic harvest demands %s"
